@@ -26,6 +26,242 @@ pub mod vx_ids {
 
 /*@include units/ids_common/spec.rs @*/
 
+
+    // ------------------------------------------------------------------------------------------
+    // sequence-surgery lemmas used by `remove`
+    // ------------------------------------------------------------------------------------------
+    /// shrink entry `i` to `[start, new_end)`
+    pub proof fn lemma_set_end<T: Merge>(s: Seq<Ent<T>>, i: int, new_end: u32, t: Seq<Ent<T>>)
+        requires
+            canon(s),
+            0 <= i < s.len(),
+            s[i].0.start < new_end <= s[i].0.end,
+            t == s.update(i, (s[i].0.start..new_end, s[i].1)),
+        ensures
+            canon(t),
+            forall|c: int| covers(t, c) <==> covers(s, c) && !(new_end <= c < s[i].0.end),
+            forall|c: int| covers(t, c) ==> #[trigger] val_at(t, c) == val_at(s, c),
+    {
+        assert forall|a: int, b: int| 0 <= a < b < t.len() implies (#[trigger] t[a]).0.end <= (#[trigger] t[b]).0.start by {
+            assert(s[a].0.end <= s[b].0.start);
+        }
+        assert forall|k: int, k1: int| 0 <= k && k1 == k + 1 && k1 < t.len() && (#[trigger] t[k]).0.end == (#[trigger] t[k1]).0.start implies !t[k].1.eq_spec(&t[k1].1) by {
+            assert(s[k].0.end <= s[k + 1].0.start);
+            assert(t[k].1 == s[k].1 && t[k + 1].1 == s[k + 1].1);
+        }
+        assert forall|c: int| covers(t, c) <==> covers(s, c) && !(new_end <= c < s[i].0.end) by {
+            if covers(t, c) {
+                let k = idx_of(t, c);
+                assert(inr(t[k].0, c));
+                assert(inr(s[k].0, c));
+                if new_end <= c < s[i].0.end {
+                    lemma_idx_unique(s, i, c);
+                    lemma_idx_unique(s, k, c);
+                }
+            }
+            if covers(s, c) && !(new_end <= c < s[i].0.end) {
+                let k = idx_of(s, c);
+                assert(inr(s[k].0, c));
+                assert(inr(t[k].0, c));
+            }
+        }
+        assert forall|c: int| covers(t, c) implies #[trigger] val_at(t, c) == val_at(s, c) by {
+            let k = idx_of(t, c);
+            assert(inr(t[k].0, c));
+            assert(inr(s[k].0, c));
+            lemma_idx_unique(s, k, c);
+        }
+    }
+
+    /// shrink entry `j` to `[new_start, end)`
+    pub proof fn lemma_set_start<T: Merge>(s: Seq<Ent<T>>, j: int, new_start: u32, t: Seq<Ent<T>>)
+        requires
+            canon(s),
+            0 <= j < s.len(),
+            s[j].0.start <= new_start < s[j].0.end,
+            t == s.update(j, (new_start..s[j].0.end, s[j].1)),
+        ensures
+            canon(t),
+            forall|c: int| covers(t, c) <==> covers(s, c) && !(s[j].0.start <= c < new_start),
+            forall|c: int| covers(t, c) ==> #[trigger] val_at(t, c) == val_at(s, c),
+    {
+        assert forall|a: int, b: int| 0 <= a < b < t.len() implies (#[trigger] t[a]).0.end <= (#[trigger] t[b]).0.start by {
+            assert(s[a].0.end <= s[b].0.start);
+        }
+        assert forall|k: int, k1: int| 0 <= k && k1 == k + 1 && k1 < t.len() && (#[trigger] t[k]).0.end == (#[trigger] t[k1]).0.start implies !t[k].1.eq_spec(&t[k1].1) by {
+            assert(s[k].0.end <= s[k + 1].0.start);
+            assert(t[k].1 == s[k].1 && t[k + 1].1 == s[k + 1].1);
+        }
+        assert forall|c: int| covers(t, c) <==> covers(s, c) && !(s[j].0.start <= c < new_start) by {
+            if covers(t, c) {
+                let k = idx_of(t, c);
+                assert(inr(t[k].0, c));
+                assert(inr(s[k].0, c));
+                if s[j].0.start <= c < new_start {
+                    lemma_idx_unique(s, j, c);
+                    lemma_idx_unique(s, k, c);
+                }
+            }
+            if covers(s, c) && !(s[j].0.start <= c < new_start) {
+                let k = idx_of(s, c);
+                assert(inr(s[k].0, c));
+                assert(inr(t[k].0, c));
+            }
+        }
+        assert forall|c: int| covers(t, c) implies #[trigger] val_at(t, c) == val_at(s, c) by {
+            let k = idx_of(t, c);
+            assert(inr(t[k].0, c));
+            assert(inr(s[k].0, c));
+            lemma_idx_unique(s, k, c);
+        }
+    }
+
+    /// element-wise description of dropping the entries `[i, j)`
+    pub open spec fn is_cut<T>(s: Seq<Ent<T>>, i: int, j: int, t: Seq<Ent<T>>) -> bool {
+        &&& t.len() == s.len() - (j - i)
+        &&& forall|k: int| 0 <= k < i ==> #[trigger] t[k] == s[k]
+        &&& forall|k: int| i <= k < t.len() ==> #[trigger] t[k] == s[k + (j - i)]
+    }
+
+    pub proof fn lemma_cut_elems<T>(s: Seq<Ent<T>>, i: int, j: int, t: Seq<Ent<T>>)
+        requires
+            0 <= i <= j <= s.len(),
+            t == s.subrange(0, i) + s.subrange(j, s.len() as int),
+        ensures
+            is_cut(s, i, j, t),
+    {
+    }
+
+    /// drop the entries `[i, j)`
+    pub proof fn lemma_cut<T: Merge>(s: Seq<Ent<T>>, i: int, j: int, t: Seq<Ent<T>>)
+        requires
+            canon(s),
+            0 <= i < j <= s.len(),
+            is_cut(s, i, j, t),
+        ensures
+            canon(t),
+            forall|c: int| covers(t, c) <==> covers(s, c) && !(s[i].0.start <= c < s[j - 1].0.end),
+            forall|c: int| covers(t, c) ==> #[trigger] val_at(t, c) == val_at(s, c),
+    {
+        let d = j - i;
+        assert forall|a: int, b: int| 0 <= a < b < t.len() implies (#[trigger] t[a]).0.end <= (#[trigger] t[b]).0.start by {
+            let a2 = if a < i { a } else { a + d };
+            let b2 = if b < i { b } else { b + d };
+            assert(t[a] == s[a2] && t[b] == s[b2]);
+            assert(s[a2].0.end <= s[b2].0.start);
+        }
+        assert forall|k: int, k1: int| 0 <= k && k1 == k + 1 && k1 < t.len() && (#[trigger] t[k]).0.end == (#[trigger] t[k1]).0.start implies !t[k].1.eq_spec(&t[k1].1) by {
+            if k == i - 1 {
+                // s[i-1].end <= s[i].start < s[i].end <= s[j].start : not adjacent
+                assert(t[k] == s[i - 1] && t[k1] == s[j]);
+                assert(s[i - 1].0.end <= s[i].0.start);
+                assert(s[i].0.end <= s[j].0.start);
+            } else if k < i - 1 {
+                assert(t[k] == s[k] && t[k1] == s[k + 1]);
+            } else {
+                assert(t[k] == s[k + d] && t[k1] == s[k + d + 1]);
+            }
+        }
+        assert(nonempty(t)) by {
+            assert forall|k: int| 0 <= k < t.len() implies (#[trigger] t[k]).0.start < t[k].0.end by {
+                let k2 = if k < i { k } else { k + d };
+                assert(t[k] == s[k2]);
+            }
+        }
+        assert(vals_wf(t)) by {
+            assert forall|k: int| 0 <= k < t.len() implies (#[trigger] t[k]).1.wf() by {
+                let k2 = if k < i { k } else { k + d };
+                assert(t[k] == s[k2]);
+            }
+        }
+        assert forall|c: int| covers(t, c) <==> covers(s, c) && !(s[i].0.start <= c < s[j - 1].0.end) by {
+            if covers(t, c) {
+                let k = idx_of(t, c);
+                assert(inr(t[k].0, c));
+                let k2 = if k < i { k } else { k + d };
+                assert(t[k] == s[k2]);
+                assert(inr(s[k2].0, c));
+                if k2 < i { assert(s[k2].0.end <= s[i].0.start); } else { if j - 1 < k2 { assert(s[j - 1].0.end <= s[k2].0.start); } }
+            }
+            if covers(s, c) && !(s[i].0.start <= c < s[j - 1].0.end) {
+                let k = idx_of(s, c);
+                assert(inr(s[k].0, c));
+                if i <= k < j {
+                    if i < k { assert(s[i].0.end <= s[k].0.start); }
+                    if k < j - 1 { assert(s[k].0.end <= s[j - 1].0.start); }
+                    assert(false);
+                }
+                let k2 = if k < i { k } else { k - d };
+                assert(t[k2] == s[k]);
+                assert(inr(t[k2].0, c));
+            }
+        }
+        assert forall|c: int| covers(t, c) implies #[trigger] val_at(t, c) == val_at(s, c) by {
+            let k = idx_of(t, c);
+            assert(inr(t[k].0, c));
+            let k2 = if k < i { k } else { k + d };
+            assert(t[k] == s[k2]);
+            assert(inr(s[k2].0, c));
+            lemma_idx_unique(s, k2, c);
+        }
+    }
+
+    /// split entry `i` in two by cutting `[lo, hi)` strictly inside it
+    pub proof fn lemma_split<T: Merge>(s: Seq<Ent<T>>, i: int, lo: u32, hi: u32, t: Seq<Ent<T>>)
+        requires
+            canon(s),
+            0 <= i < s.len(),
+            s[i].0.start < lo < hi < s[i].0.end,
+            t == s.update(i, (s[i].0.start..lo, s[i].1)).insert(i + 1, (hi..s[i].0.end, s[i].1)),
+        ensures
+            canon(t),
+            forall|c: int| covers(t, c) <==> covers(s, c) && !(lo <= c < hi),
+            forall|c: int| covers(t, c) ==> #[trigger] val_at(t, c) == val_at(s, c),
+    {
+        assert forall|k: int| 0 <= k < t.len() implies #[trigger] t[k] == (if k < i { s[k] } else if k == i { (s[i].0.start..lo, s[i].1) } else if k == i + 1 { (hi..s[i].0.end, s[i].1) } else { s[k - 1] }) by {}
+        assert forall|a: int, b: int| 0 <= a < b < t.len() implies (#[trigger] t[a]).0.end <= (#[trigger] t[b]).0.start by {
+            let a2 = if a <= i { a } else { a - 1 };
+            let b2 = if b <= i { b } else { b - 1 };
+            if a2 < b2 { assert(s[a2].0.end <= s[b2].0.start); }
+        }
+        assert forall|k: int, k1: int| 0 <= k && k1 == k + 1 && k1 < t.len() && (#[trigger] t[k]).0.end == (#[trigger] t[k1]).0.start implies !t[k].1.eq_spec(&t[k1].1) by {
+            if k < i - 1 {
+                assert(t[k] == s[k] && t[k + 1] == s[k + 1]);
+            } else if k == i - 1 {
+                assert(t[k] == s[k] && t[k + 1].0.start == s[i].0.start && t[k + 1].1 == s[i].1);
+                assert(s[k].0.end <= s[k + 1].0.start);
+            } else if k == i {
+            } else if k == i + 1 {
+                assert(t[k].0.end == s[i].0.end && t[k].1 == s[i].1 && t[k + 1] == s[i + 1]);
+            } else {
+                assert(t[k] == s[k - 1] && t[k + 1] == s[k]);
+            }
+        }
+        assert forall|c: int| covers(t, c) <==> covers(s, c) && !(lo <= c < hi) by {
+            if covers(t, c) {
+                let k = idx_of(t, c);
+                assert(inr(t[k].0, c));
+                let k2 = if k <= i { k } else { k - 1 };
+                assert(inr(s[k2].0, c));
+                if lo <= c < hi { lemma_idx_unique(s, i, c); lemma_idx_unique(s, k2, c); }
+            }
+            if covers(s, c) && !(lo <= c < hi) {
+                let k = idx_of(s, c);
+                assert(inr(s[k].0, c));
+                if k < i { assert(inr(t[k].0, c)); } else if k > i { assert(inr(t[k + 1].0, c)); } else {
+                    if c < lo { assert(inr(t[i].0, c)); } else { assert(inr(t[i + 1].0, c)); }
+                }
+            }
+        }
+        assert forall|c: int| covers(t, c) implies #[trigger] val_at(t, c) == val_at(s, c) by {
+            let k = idx_of(t, c);
+            assert(inr(t[k].0, c));
+            let k2 = if k <= i { k } else { k - 1 };
+            assert(inr(s[k2].0, c));
+            lemma_idx_unique(s, k2, c);
+        }
+    }
+
     impl<T: Merge> IdRanges<T> {
         /*@extract yrs/src/ids.rs | impl<T: Merge> IdRanges<T> | fn len
         @ret r
@@ -129,18 +365,6 @@ pub mod vx_ids {
             decreases self.0.len() - j,
         @*/
 
-        /*@extract yrs/src/ids.rs | impl<T: Merge> IdRanges<T> | fn insert_with
-        @sig
-            requires canon(old(self)@), value.wf(),
-            ensures
-                canon(final(self)@),
-                forall|c: int| covers(final(self)@, c) <==> covers(old(self)@, c) || inr(range, c),
-                forall|c: int| covers(old(self)@, c) && !inr(range, c) ==> #[trigger] val_at(final(self)@, c).eq_spec(&val_at(old(self)@, c)),
-                forall|c: int| !covers(old(self)@, c) && inr(range, c) ==> #[trigger] val_at(final(self)@, c).eq_spec(&value),
-                forall|c: int| covers(old(self)@, c) && inr(range, c) ==> #[trigger] val_at(final(self)@, c).eq_spec(&val_at(old(self)@, c).merge_spec(&value)),
-                @loop 1
-            decreases self.0.len() - hi,
-        @*/
     }
 }
 
